@@ -805,7 +805,7 @@ def nary_depth(P, w):
     return d
 
 
-HIST_FAMILIES = ["shrink", "shrink", "grow", "permute", "randw", "types", "types", "sametype", "ranges", "thresh", "superset", "fresh", "mixed"]
+HIST_FAMILIES = ["shrink", "shrink", "grow", "permute", "randw", "types", "backdefault", "sametype", "ranges", "thresh", "superset", "fresh", "mixed"]
 
 
 def _type_setup(rng, t, force=False):
@@ -869,6 +869,14 @@ def make_history(rng, family, paymode=0, P=None):
                 o += _type_setup(rng, t)
             cur = t
             ops.append(o)
+    elif family == "backdefault":
+        # non-default parameters, a switch to another type and back WITHOUT calling the setter again: the defaults are in force
+        t = rng.choice([2, 2, 7])
+        other = rng.choice([x for x in range(9) if x != t])
+        first = [("W", rng.choice([3, 4, 5, 8, P]), rng.choice([3, 4]), rng.choice([3, 4, 5, 16, P + 1]))] if t == 2 else [("R", rng.choice([1, 2, 3, 60]))]
+        ops = [[("T", t)] + first, [("T", other)] + _type_setup(rng, other), [("T", t)]]
+        if rng.random() < 0.5:
+            ops.append(_type_setup(rng, t, force=True))
     elif family == "sametype":
         # set_type to the type the object already has must keep the parameters
         t = rng.choice([2, 2, 7, 8])
